@@ -72,13 +72,13 @@ PROPS = {
         "assumptions": ["informer caches are monotone per kind", "run objects are removed by others only after their Trial completed", "algorithm service returns fresh names"],
     },
     "C06": {
-        "prop_files": ['Katib/Props/C06.lean', 'Katib/Props/C06World.lean', 'Katib/Props/C06Running.lean', 'Katib/Props/C06Objective.lean'],
-        "streams": [('SIM', {'quick': 240, 'thorough': 8000})],
-        "rule": "seeded random schedules of the three real reconcilers on the fake client (1-2 experiments, optionally equally named in two namespaces; maxTrialCount 1-4/unset, parallel 1-3, maxFailed, goal, three resume policies, early stopping, retain, push collector), ops = reconciles with per-kind monotone lagging views (random lag, stalled informers, one kind's cache held for several reconciles - also exactly at the Experiment copy from before its verdict), write-fault masks, abort points, algorithm reply faults (short/long/error, rules RPC error), job outcomes, metric arrival (also after the verdict), early stop, deployment ready, external removal of a completed trial's run object, a run-object-creating reconcile cut off before its status write with the job finishing before the retry; scripted RPC failures cycle through gRPC status codes; then fault-free settling to quiescence, a quiescence probe, optionally one or two budget raises each with a second settling, and optionally a teardown in which Trials are deleted and reconciled while the database call or the finalizer write fails; every op's write log and the whole store are compared with the Lean model; a case = one schedule; distinct = distinct op sequence",
+        "prop_files": ['Katib/Props/C06.lean', 'Katib/Props/C06World.lean', 'Katib/Props/C06Running.lean', 'Katib/Props/C06Objective.lean', 'Katib/Props/C06Job.lean'],
+        "streams": [('SIM', {'quick': 240, 'thorough': 8000}), ('C06J', {'quick': 4000, 'thorough': 200000})],
+        "rule": "seeded random schedules of the three real reconcilers on the fake client (1-2 experiments, optionally equally named in two namespaces; maxTrialCount 1-4/unset, parallel 1-3, maxFailed, goal, three resume policies, early stopping, retain, push collector), ops = reconciles with per-kind monotone lagging views (random lag, stalled informers, one kind's cache held for several reconciles - also exactly at the Experiment copy from before its verdict), write-fault masks, abort points, algorithm reply faults (short/long/error, rules RPC error), job outcomes, metric arrival (also after the verdict), early stop, deployment ready, external removal of a completed trial's run object, a run-object-creating reconcile cut off before its status write with the job finishing before the retry; scripted RPC failures cycle through gRPC status codes; then fault-free settling to quiescence, a quiescence probe, optionally one or two budget raises each with a second settling, and optionally a teardown in which Trials are deleted and reconciled while the database call or the finalizer write fails; every op's write log and the whole store are compared with the Lean model; a case = one schedule; distinct = distinct op sequence; stream C06J: job status documents (0-4 entries of status.conditions with string members type/condition/state, status, reason, message, a stray `condition` member, lastProbeTime; no status / no conditions) x failure and success conditions of the two GJSON shapes Katib writes (`#(k==v)#|#(status==True)#`, `#(k==v)`) through the real GetDeployedJobStatus, Trial Running or not, run object named or not",
         "trusted": ["controller-runtime fake client stands in for the kube-apiserver (rv conflicts, status subresource, AlreadyExists)",
                     "fake algorithm / early-stopping / DB-manager services", "typed reads inside a reconcile come from a snapshot (informer cache), run objects are read live"],
         "modelled": ["ReconcileExperiment.Reconcile / ReconcileSuggestion.Reconcile / ReconcileTrial.Reconcile and helpers as Katib.Ctl.expPlan / sugPlan / trialPlan",
-                     "API-server semantics as Katib.Ctl.applyCall", "the op/step state machine Katib.Ctl.step"],
+                     "API-server semantics as Katib.Ctl.applyCall", "the op/step state machine Katib.Ctl.step", "GetDeployedJobStatus on the two condition-expression shapes as Katib.Job.jobStatus (GJSON itself is not modelled beyond them)"],
         "level_text": 'C06_permanent: over every list of simulator operations (no hypothesis on the schedule: arbitrary lagging reads, fault masks, abort points, environment events) a trial never disappears, every condition other than Running that was True in any earlier snapshot is True now (terminal verdicts are permanent) and no trial is both Succeeded and EarlyStopped (invariants TInv/KInv + history relation TPast); C06_verdict_guard: every status write of every reconcile obeys the verdict rules (Succeeded needs job success and an objective value and excludes other verdicts; failure first; MetricsUnavailable only without objective value); correspondence + oracle on generated schedules',
         "level_note": "trusted: Lean kernel; harness/check; fake client as API server; views monotone per kind; the tie between Lean model and Go controllers is differential (sampling)",
         "assumptions": ["informer caches are monotone per kind", "run objects are removed by others only after their Trial completed", "algorithm service returns fresh names"],
